@@ -115,6 +115,14 @@ CLAIMED["C07"] = ("DESIGN.md §4 C07",
     "trusted: pysym; protobuf records and the object store are attribute bags, other save steps are no-op stubs; outside: "
     "reference closure, package metadata listing, re-openability by Numbers")
 
+CLAIMED["C13"] = ("DESIGN.md §4 C13 (partial)",
+    "Decorations only decorate: the real _format_decimal/_format_currency run with the rounding step (sigfig) replaced by "
+    "a stub returning symbolic digit strings; z3 shows that for every digit string, negative style, separator setting, "
+    "decimals, percent, accounting layout and currency code the output minus its decorations is exactly those digits and "
+    "the sign is shown exactly once. That the digits are the correctly rounded value is NOT claimed.",
+    "trusted: pysym; sigfig contract stub (active natively too); outside: numeric correctness of rounding, scientific, "
+    "base, fraction and custom formats")
+
 NOT_APPLICABLE = {}
 
 
